@@ -552,7 +552,9 @@ class Explorer {
       }
       if (!bad.empty()) {
         ++stats.violations;
-        if (violations.size() < 20) {
+        // keep a few examples per distinct message so that a violation that fires in every schedule cannot crowd out others
+        int& seen_msg = violation_kinds[bad];
+        if (seen_msg++ < 3 && violations.size() < 90) {
           std::string v = "violation: " + bad + "\nscenario: " + header + "\nchoices: " + ctx.ChoiceString() + "\ntrace:";
           for (auto& l : ctx.trace) v += "\n  " + l;
           violations.push_back(v);
@@ -598,6 +600,7 @@ class Explorer {
   std::unordered_set<std::uint64_t> seen;
   std::vector<std::string> samples;
   std::vector<std::string> violations;
+  std::map<std::string, int> violation_kinds;
   std::FILE* out = nullptr;
 };
 
